@@ -1,5 +1,5 @@
 use std::borrow::Cow;
-use std::collections::HashSet;
+use std::collections::{HashMap, HashSet};
 use std::sync::Arc;
 
 use crossbeam_utils::atomic::AtomicCell;
@@ -94,6 +94,15 @@ where
         let mut docs = msg.docs;
         docs.sort_by_key(|doc| doc.last_updated());
 
+        // A bulk call that fails part-way reports the ids it wrote, not which version of
+        // them: of several versions of one document only the newest is kept (the others
+        // would be overwritten by it anyway), so that a reported id stands for one write.
+        let newest: HashMap<_, HLCTimestamp> = docs
+            .iter()
+            .map(|doc| (doc.id(), doc.last_updated()))
+            .collect();
+        docs.retain(|doc| newest.get(&doc.id()) == Some(&doc.last_updated()));
+
         // Only select docs to be inserted if they're able to be applied.
         let docs = docs
             .into_iter()
@@ -164,6 +173,13 @@ where
         // Same as `on_multi_set`, the newest marker for a document must be written last.
         let mut docs = msg.docs;
         docs.sort_by_key(|doc| doc.last_updated);
+
+        // Same as `on_multi_set`: only the newest marker of a document is kept.
+        let newest: HashMap<_, HLCTimestamp> = docs
+            .iter()
+            .map(|doc| (doc.id, doc.last_updated))
+            .collect();
+        docs.retain(|doc| newest.get(&doc.id) == Some(&doc.last_updated));
 
         // Only select docs to be inserted if they're able to be applied.
         let docs = docs
